@@ -34,6 +34,7 @@ type c19Rec struct {
 
 func init() {
 	register("exec-c19", func(in []json.RawMessage, out *Out, args []string) error {
+		layout.WithRaw = true
 		recs := make([]c19Rec, len(in))
 		parallel(len(in), runtime.NumCPU(), func(i int) {
 			var cs c19Case
